@@ -19,7 +19,7 @@ RULE = ('(a) ZerothMonitor on every depth-0 public UTPM call that has a NumPy/Sc
         '(function, shape); non-trivial = the call has at least one polynomial argument (a) / array argument (c)')
 ASSUMPTIONS = ['NumPy/SciPy on the zeroth coefficients is the specification', 'singular vectors and general eigenvectors are excluded by the statement (C08 covers them)',
                '!= is derived by Python from __eq__ and only checked for single-element operands']
-REQUIRED = ['zeroth-shadow', 'compare:__lt__', 'compare:__le__', 'compare:__gt__', 'compare:__ge__', 'compare:__eq__', 'plain', 'branches']
+REQUIRED = ['zeroth-shadow', 'compare:__lt__', 'compare:__le__', 'compare:__gt__', 'compare:__ge__', 'compare:__eq__', 'compare:Function', 'plain', 'branches']
 
 _mon = None
 
@@ -177,6 +177,27 @@ def _compare(ctx, p, rng):
                 s = float(np.median(a[0])) if a[0].size else 0.0
                 _t(ctx, lambda: op(X, s)); _t(ctx, lambda: op(s, X))
                 _t(ctx, lambda: op(X, b[0, 0])); _t(ctx, lambda: op(X, np.float64(s)))
+    # comparisons of traced values (Function) delegate to the values they hold
+    from algopy import CGraph, Function
+    for shape in [(), (3,)]:
+        a = gen.series_data(rng, D, P, shape, 'R', 'random', False, 1.0)
+        b = a + rng.choice([-1.0, 1.0], size=a.shape) * rng.uniform(0.1, 1.0, size=a.shape)
+        cg = CGraph()
+        FA, FB = Function(UTPM(a.copy())), Function(UTPM(b.copy()))
+        cg.trace_off()
+        for op in (operator.lt, operator.le, operator.gt, operator.ge):
+            want = bool(np.all(op(a[0], b[0])))
+            for lhs, rhs, tag in ((FA, FB, 'FF'), (FA, UTPM(b.copy()), 'FU'), (FA, b[0, 0] if P == 1 else None, 'Fa')):
+                if rhs is None:
+                    continue
+                w = want if tag != 'Fa' else bool(np.all(op(a[0], b[0, 0])))
+                try:
+                    got = bool(op(lhs, rhs))
+                except Exception as e:
+                    ctx.violation('compare:Function:raises', {'op': op.__name__, 'operands': tag, 'error': repr(e)[:160]}); return
+                if got != w:
+                    ctx.violation('compare:Function:%s' % op.__name__, {'op': op.__name__, 'operands': tag, 'got': got, 'want': w}); return
+                ctx.ok('compare:Function', ('cmpF', op.__name__, tag, w, shape))
     # data-dependent branches take the same path with and without derivative propagation
     for _ in range(6):
         x0 = rng.normal(size=3)
